@@ -31,9 +31,14 @@ Zeros(n) == [i \in 1..n |-> 0]
 \* bit i (0 = least significant) of a natural
 Bit(w, i) == (w \div (2 ^ i)) % 2 = 1
 
-RECURSIVE Concat(_)
+RECURSIVE ConcatRange(_, _, _)
+\* concatenation of ss[lo..hi], balanced so that long lists cost O(n log n) copies, not O(n^2)
+ConcatRange(ss, lo, hi) ==
+  IF lo > hi THEN << >>
+  ELSE IF lo = hi THEN ss[lo]
+  ELSE LET mid == (lo + hi) \div 2 IN ConcatRange(ss, lo, mid) \o ConcatRange(ss, mid + 1, hi)
 \* concatenation of a sequence of sequences
-Concat(ss) == IF ss = << >> THEN << >> ELSE Head(ss) \o Concat(Tail(ss))
+Concat(ss) == ConcatRange(ss, 1, Len(ss))
 
 Min(a, b) == IF a < b THEN a ELSE b
 Max(a, b) == IF a > b THEN a ELSE b
